@@ -15,7 +15,7 @@ from common import write_ndjson
 
 def qkeras_quantizer(o):
   s = o["src"]
-  mv = (2.0 ** o["mvk"]) if o["hasmv"] else None
+  mv = (o["mvm"] * 2.0 ** o["mvk"]) if o["hasmv"] else None
   if s == "bits":
     return Q.quantized_bits(o["bits"], o["int"], keep_negative=bool(o["kn"]), alpha=1.0)
   if s == "relu":
@@ -67,8 +67,6 @@ def main():
       events.append({"op": "mul", "w": w, "x": x, "out": out, "kind": m.implemented_as()})
     except Exception as e:
       errors.append({"k": "exc", "op": "mul", "w": w, "x": x, "exc": repr(e)[:200]})
-      continue
-    if out["hasmv"] and not out["mv_is_pow2"]:
       continue
     # accumulators sized for this multiplier: dense (N, 1) and conv (kh, kw, cin, 1) kernels realising N
     for n in (ns if (a + b) % 5 == 0 or tier == "thorough" else rnd.sample(ns, 3)):
